@@ -45,11 +45,19 @@ ContractNodes(net, nd, l, r) ==
         keep == {e \in nd[l] \cup nd[r] : e \in O \/ \E m \in rest : e \in nd[m]}
     IN  [m \in rest \cup {l \cup r} |-> IF m = l \cup r THEN keep ELSE nd[m]]
 
+(* the largest (multi)bond met at a compression point: groups of non-output edges of the region's nodes that are
+   incident to exactly the same nodes.  If chi is at least this in the uncapped run, nothing is truncated and no
+   compression is charged (hypergraph.neighborhood_compress_cost charges a group only when its size exceeds chi). *)
+BondMax(net, nd, sz, N) ==
+    LET O    == SeqRange(net.output)
+        cand == (UNION {nd[n] : n \in N}) \ O
+    IN  MaxSet({0} \cup {FoldSet(LAMBDA f, acc : acc * sz[f], 1, {f \in cand : NodesOf(nd, f) = NodesOf(nd, e)}) : e \in cand})
+
 (* tracker record: total, maxsize, peak, write, flops (contraction flops only) *)
 InitTracker(net) ==
     LET nd == InitNodes(net)  sz == InitSizes(net)
         tot == SumOver(DOMAIN nd, LAMBDA n : SizeOf(nd, sz, n))
-    IN  [nd |-> nd, sz |-> sz, total |-> tot, peak |-> tot, write |-> tot, flops |-> 0,
+    IN  [nd |-> nd, sz |-> sz, total |-> tot, peak |-> tot, write |-> tot, flops |-> 0, maxbond |-> 0,
          maxsize |-> MaxSet({SizeOf(nd, sz, n) : n \in DOMAIN nd})]
 
 Step(net, s, chi, late, p, l, r) ==
@@ -64,7 +72,8 @@ Step(net, s, chi, late, p, l, r) ==
         post == s.total + d2
         c4 == IF late THEN [nd |-> nd3, sz |-> c2.sz] ELSE CompressNode(net, nd3, c2.sz, chi, p)
         d3 == IF late THEN d2 ELSE d2 + NbhdSize(c4.nd, c4.sz, {p}) - NbhdSize(nd3, c2.sz, {p})
-    IN  [nd |-> c4.nd, sz |-> c4.sz, total |-> s.total + d3, peak |-> Max2(s.peak, post),
+        mb == IF late THEN BondMax(net, s.nd, s.sz, {l, r}) ELSE BondMax(net, nd3, c2.sz, {p})
+    IN  [nd |-> c4.nd, sz |-> c4.sz, total |-> s.total + d3, peak |-> Max2(s.peak, post), maxbond |-> Max2(s.maxbond, mb),
          write |-> s.write + csz, flops |-> s.flops + fl, maxsize |-> Max2(s.maxsize, csz)]
 
 RECURSIVE Run(_, _, _, _, _, _, _)
@@ -85,6 +94,8 @@ ExactWhenUncapped(net, ch, late, seq) ==
     IN  /\ e.flops = TotFlops(net, ch, unsliced)
         /\ e.maxsize = Max2(MaxSize(net, ch, unsliced), MaxSet({Size(net, {t}, {}) : t \in Leaves(net)}))
         /\ e.write = TotWrite(net, ch, unsliced) + SumOver(Leaves(net), LAMBDA t : Size(net, {t}, {}))
+(* chi truncates nothing: at least every (multi)bond of the uncapped run *)
+NothingTruncated(net, ch, chi, late, seq) == chi >= Estimate(net, ch, Huge, late, seq).maxbond
 NeverExceedsUncapped(net, ch, chi, late, seq) ==
     LET e == Estimate(net, ch, chi, late, seq)  u == Estimate(net, ch, Huge, late, seq) IN
     e.maxsize <= u.maxsize /\ e.peak <= u.peak /\ e.write <= u.write
